@@ -111,6 +111,8 @@ def vec_sum(ex, st, v):
         elj = to_int(elj)
     allnn = z3.ForAll([kk], z3.Implies(z3.And(0 <= kk, kk < nz), elem >= 0))
     somepos = z3.Exists([jj], z3.And(0 <= jj, jj < nz, elj > 0))
+    allzero = z3.ForAll([kk], z3.Implies(z3.And(0 <= kk, kk < nz), elem == 0))
+    global_fact(ex, _close(params, z3.Implies(allzero, total == 0)))
     global_fact(ex, _close(params, z3.Implies(allnn, total >= 0)))
     global_fact(ex, _close(params, z3.Implies(z3.And(allnn, somepos), total > 0)))
     used(ex, "sum of non-negative terms is non-negative, and positive if some term is (lemmas psum_nonneg, psum_pos)")
@@ -988,6 +990,8 @@ def tab_attr(ex, st, o, t, attr, node):
         return [(st, cn)]
     if attr == "empty":
         return [(st, _simpb(to_z3(t.n) == 0))]
+    if attr == "index" and getattr(t.idx, "tlabels", None) is not None:
+        return [(st, TupIndex(t.n, t.idx.tlabels, token=t.idx))]
     if attr == "index":
         if t.idx.labels is None:
             raise Unsupported("opaque index")
@@ -1290,7 +1294,19 @@ def t_astype(ex, st, o, args, kwargs, node):
             if kind != "str":
                 raise Unsupported("astype(str) of a non-string column")
         elif tn == "int":
-            if kind != "int":
+            if kind == "float":
+                # float -> int: every cell must hold a number (pandas raises on NaN), then truncation toward zero
+                f0 = cols[cn]
+                kq = fresh(I, "k")
+                with binding(kq):
+                    x = f0(kq)
+                    nonnull = z3.Not(x.null) if isinstance(x, NF) else z3.BoolVal(True)
+                line = getattr(node, "lineno", None)
+                ex.oblig("not_nan", "L%s(%s)" % (line, cn), st,
+                         z3.ForAll([kq], z3.Implies(z3.And(0 <= kq, kq < to_z3(t.n)), nonnull)), line=line)
+                cols[cn] = (lambda k, f=f0: trunc_real(f(k).val if isinstance(f(k), NF) else f(k)))
+                elts[cn] = dsl.Int
+            elif kind != "int":
                 raise Unsupported("astype(int) of a non-int column")
         elif tn == "float":
             if kind == "int":
@@ -1850,3 +1866,129 @@ def sp_n_groups(ex, st, args, kwargs, node):
     if g is None:
         raise SpecError("n_groups() without a groupby")
     return g[0]
+
+
+# =============================================================================== tuple-labelled indexes (join by key)
+class TupIndex:
+    """pd.Index of tuples (e.g. genomic coordinates): position k -> tuple of terms"""
+
+    def __init__(self, n, at, token=None):
+        self.n, self.at, self.token = n, at, token
+
+
+def _tup_eq(a, b):
+    a = tuple(a.f.values()) if isinstance(a, Rec) else tuple(a)
+    b = tuple(b.f.values()) if isinstance(b, Rec) else tuple(b)
+    if len(a) != len(b):
+        return z3.BoolVal(False)
+    return z3.And([_b(z3eq(x, y)) for x, y in zip(a, b)] + [z3.BoolVal(True)])
+
+
+@builtin("pandas.Index")
+def pd_index(ex, st, args, kwargs, node):
+    v = st.get(args[0])
+    if isinstance(v, (Seq, IterV)) and not kwargs:
+        probe = v.at(z3.IntVal(0))
+        if isinstance(probe, (Rec, tuple)):
+            used(ex, "pd.Index(rows): an index whose labels are the row tuples")
+            return TupIndex(v.n, v.at)
+    raise Unsupported("pd.Index(%r)" % (v,))
+
+
+@tm("set_index")
+def t_set_index(ex, st, o, args, kwargs, node):
+    t = st.get(o)
+    ix = st.get(args[0]) if len(args) == 1 and not kwargs else None
+    if isinstance(ix, TupIndex):
+        line = getattr(node, "lineno", None)
+        ex.oblig("len_eq", "L%s" % line, st, to_z3(ix.n) == to_z3(t.n), line=line)
+        tok = ix.token or Idx("tuples")
+        tok.tlabels = ix.at
+        return st.alloc(Tab(t.n, t.cols, tok, t.elts))
+    if isinstance(args[0], Ref) and args[0].addr in _TOKENS and isinstance(ix, Vec) and ix.kind == "index":
+        tok, off = _TOKENS[args[0].addr]
+        if off != 0:
+            raise Unsupported("set_index with a shifted index")
+        line = getattr(node, "lineno", None)
+        ex.oblig("len_eq", "L%s" % line, st, to_z3(ix.n) == to_z3(t.n), line=line)
+        return st.alloc(Tab(t.n, t.cols, tok, t.elts))
+    raise Unsupported("DataFrame.set_index(%r)" % (ix,))
+
+
+@method(TupIndex, "duplicated")
+def ti_duplicated(ex, st, o, args, kwargs, node):
+    ix = st.get(o)
+    if args or kwargs:
+        raise Unsupported("Index.duplicated(keep=...)")
+    used(ex, "Index.duplicated(): a label is marked when an equal label occurs earlier")
+
+    def at(k):
+        j = fresh(I, "j")
+        with binding(j):
+            body = z3.And(0 <= j, j < to_z3(k), _tup_eq(ix.at(j), ix.at(k)))
+        return z3.Exists([j], body)
+    return st.alloc(Vec(ix.n, at, kind="array"))
+
+
+def tab_reindex_by_labels(ex, st, t, target, node):
+    """DataFrame.reindex(index=labels) on a tuple-labelled frame without duplicate labels: row k of the result is the row
+    of the frame whose label equals labels[k]; where there is none, every cell is missing."""
+    src = getattr(t.idx, "tlabels", None)
+    if src is None:
+        raise Unsupported("reindex(index=) of a frame that is not tuple-labelled")
+    used(ex, "DataFrame.reindex(index=labels): label lookup; rows without a matching label are all-missing")
+    pos = z3.Function(fresh_name("pos"), I, I)
+    nref, nt = to_z3(t.n), to_z3(target.n)
+
+    def has(k):
+        j = fresh(I, "j")
+        with binding(j):
+            return z3.Exists([j], z3.And(0 <= j, j < nref, _tup_eq(src(j), target.at(k))))
+    k = fresh(I, "k")
+    with binding(k):
+        hk = has(k)
+        fact = z3.Implies(z3.And(0 <= k, k < nt, hk), z3.And(0 <= pos(k), pos(k) < nref, _tup_eq(src(pos(k)), target.at(k))))
+    st.assume(z3.ForAll([k], fact))
+    cols, elts = {}, {}
+    for c, f in t.cols.items():
+        probe = f(z3.IntVal(0))
+        pz = probe.val if isinstance(probe, NF) else to_z3(probe)
+        if pz.sort() in (I, R):
+            def col(kk, f=f):
+                x = f(pos(to_z3(kk)))
+                nul = z3.Not(has(kk))
+                if isinstance(x, NF):
+                    return NF(z3.Or(nul, x.null), x.val)
+                return NF(nul, to_real(x) if to_z3(x).sort() == I else to_z3(x))
+            cols[c] = col
+            elts[c] = dsl.NReal
+        else:
+            cols[c] = (lambda kk, f=f: f(pos(to_z3(kk))))       # text cells: unspecified where missing
+            elts[c] = t.elts.get(c)
+    tok = target.token or Idx("tuples")
+    tok.tlabels = target.at
+    st.ghost = dict(st.ghost)
+    st.ghost["view_matchpos"] = pos
+    return st.alloc(Tab(target.n, cols, tok, elts))
+
+
+_t_reindex_cols = METHODS[(Tab, "reindex")]
+
+
+@tm("reindex")
+def t_reindex_any(ex, st, o, args, kwargs, node):
+    if not args and set(kwargs) == {"index"}:
+        tgt = st.get(kwargs["index"])
+        if isinstance(tgt, TupIndex):
+            return tab_reindex_by_labels(ex, st, st.get(o), tgt, node)
+        raise Unsupported("reindex(index=%r)" % (tgt,))
+    return _t_reindex_cols(ex, st, o, args, kwargs, node)
+
+
+@builtin("match_pos")
+def sp_match_pos(ex, st, args, kwargs, node):
+    """match_pos(k): the row of the reindexed frame's source that was matched to label k (spec language)"""
+    f = st.ghost.get("view_matchpos")
+    if f is None:
+        raise SpecError("match_pos() without a reindex(index=...)")
+    return f(to_z3(st.get(args[0])))
